@@ -589,3 +589,38 @@ func VerifUpdateTwoSteps() {
 		rt.Assert(post.has[li] && rt.Eq(post.raw[li], out), "C04/second-step-read-after-accept")
 	}
 }
+
+// VerifUpdateInline is the end-to-end form of C01 for small trees: the stored and the submitted
+// checkpoint commit to Merkle tree hashes of two arbitrary leaf lists, the REAL
+// proof.VerifyConsistency runs inside the real Update (vc_inline=1) on an arbitrary proof, and an
+// accepted growth step must mean that the old leaves are a prefix of the new ones.
+func VerifUpdateInline() {
+	rt.InstallMetrics()
+	c := verifConfig(1, rt.Param("signers", 1))
+	store := verifStore()
+	w, err := New(Opts{Persistence: store, Signers: c.signers, KnownLogs: c.logs})
+	if err != nil {
+		rt.Unsupported("New failed")
+	}
+	N := rt.Param("n", 6)
+	m, n := verifSizes(N) // 1 <= m <= n <= N
+	x, y := rt.Leaves("x", m), rt.Leaves("y", n)
+	origin, key := c.origins[0], c.keys[0]
+	prev, next := rt.Bytes("prevRaw"), rt.Bytes("nextRaw")
+	rt.Assume(rt.Valid(prev, origin, key, nil) && rt.CpSize(prev) == uint64(m) && rt.Eq(rt.CpHash(prev), rt.MTH(x)))
+	rt.Assume(rt.Valid(next, origin, key, nil) && rt.CpSize(next) == uint64(n) && rt.Eq(rt.CpHash(next), rt.MTH(y)))
+	wo, err := store.WriteOps(c.ids[0])
+	if err != nil || wo.Set(prev) != nil {
+		rt.Unsupported("preload failed")
+	}
+	_ = wo.Close()
+	proof := verifFreeProof(verifMaxProofLen(N))
+	_, uerr := w.Update(context.Background(), c.ids[0], rt.U64("oldSize"), next, proof)
+	rt.Cover(uerr == nil && n > m, "inline/growth-accepted")
+	rt.Cover(uerr == ErrInvalidProof, "inline/proof-refused")
+	if uerr == nil {
+		for i := 0; i < m; i++ {
+			rt.Assert(rt.Eq(x[i], y[i]), "C01/accepted-growth-extends-the-stored-tree")
+		}
+	}
+}
